@@ -1,4 +1,4 @@
-(** Model of the light node's Pruner: [(*ShareAvailability).Prune] (share/availability/light/availability.go) —
+(** Model of the light node's Pruner: [ShareAvailability.Prune] (share/availability/light/availability.go) —
     "prune one height = delete every indexed sample, then the index" — under delete faults, and the retry discipline of
     pruner.Service around it (a height whose Prune returned an error sits in the checkpoint's failed set and is handed to
     Prune again by every following cycle; a height whose Prune returned nil is never visited again).
